@@ -629,6 +629,129 @@ fn run_object_reuse(cx: &mut CaseCx, case: &Value) {
   }
 }
 
+
+/// Order-dependence of the bookkeeping: tag families that share low-order bits (cousins at several levels of
+/// the tree) punctured in EVERY order. A tag answers iff it was not punctured, whatever the order.
+fn run_puncture_orders(cx: &mut CaseCx, case: &Value) {
+  let fams: Vec<Vec<u8>> = vec![vec![0, 64, 128, 192], vec![1, 65, 129, 193], vec![0, 32, 64, 96, 128, 160, 192, 224], vec![0, 1, 2, 3], vec![252, 253, 254, 255], vec![85, 170, 21, 42], vec![0, 128, 1, 129], vec![63, 127, 191, 255]];
+  let fam = fams[case["family"].as_u64().unwrap() as usize % fams.len()].clone();
+  cx.entropy(40);
+  let server = pp::Server::new((0..=255u8).collect()).expect("server");
+  let point = pp::Client::blind(b"order probe").0;
+  let mut probes: Vec<u8> = fam.iter().flat_map(|&x| [x, x ^ 0x80, x ^ 0x40, x ^ 0x01]).chain([5u8, 200]).collect();
+  probes.sort();
+  probes.dedup();
+  let baseline: Vec<Option<[u8; 32]>> = probes.iter().map(|&t| server.eval(&point, t, false).ok().map(|e| *e.output.as_bytes())).collect();
+  if baseline.iter().any(|b| b.is_none()) {
+    cx.viol("C14/refuses-live-tag", "a fresh server refuses a registered tag", json!({}));
+    return;
+  }
+  let maxlen = if fam.len() <= 4 { fam.len() } else { 3 };
+  for_each_seq(fam.len(), maxlen, |seq| {
+    let mut d = seq.to_vec();
+    d.sort();
+    d.dedup();
+    if seq.is_empty() || d.len() != seq.len() || !cx.viols.is_empty() {
+      return;
+    }
+    let order: Vec<u8> = seq.iter().map(|&i| fam[i]).collect();
+    let mut s = server.clone();
+    for &t in &order {
+      cx.eval();
+      if guard(|| s.puncture(t).is_ok()) != Ok(true) {
+        cx.viol("C14/puncture-refused", format!("puncturing tag {} (never punctured before) failed in the order {:?}", t, order), json!({"punctured_in_order": order, "tag": t}));
+        return;
+      }
+    }
+    cx.count("states", 1);
+    cx.count("transitions", order.len() as u64);
+    cx.nontrivial(fnv(&order));
+    for (pi, &t) in probes.iter().enumerate() {
+      cx.eval();
+      let got = guard(|| s.eval(&point, t, false).ok().map(|e| *e.output.as_bytes()));
+      let should = !order.contains(&t);
+      match got {
+        Ok(Some(v)) if should && Some(v) == baseline[pi] => {}
+        Ok(None) if !should => {}
+        Ok(Some(_)) if !should => {
+          cx.viol("C14/answers-punctured-tag/puncture-order", format!("after puncturing {:?} in this order the server still answers for the punctured tag {}", order, t), json!({"punctured_in_order": order, "tag": t}));
+          return;
+        }
+        Ok(None) => {
+          cx.viol("C14/refuses-live-tag/puncture-order", format!("after puncturing {:?} in this order the server refuses tag {}, which was never punctured", order, t), json!({"punctured_in_order": order, "tag": t}));
+          return;
+        }
+        Ok(Some(_)) => {
+          cx.viol("C14/answer-changed/puncture-order", format!("after puncturing {:?} the answer for tag {} changed", order, t), json!({"punctured_in_order": order, "tag": t}));
+          return;
+        }
+        Err(p) => {
+          cx.viol("C14/eval-panicked", p, json!({"punctured_in_order": order}));
+          return;
+        }
+      }
+    }
+    // a second puncture of the last tag is refused
+    if let Some(&last) = order.last() {
+      if guard(|| s.puncture(last).is_ok()) == Ok(true) {
+        cx.viol("C14/double-puncture-accepted", format!("tag {} was punctured twice without error", last), json!({"punctured_in_order": order}));
+      }
+    }
+    cx.count("orders_checked", 1);
+  });
+  cx.outcome("every order");
+}
+
+/// the tag list handed to Server::new in the shapes callers produce (unsorted, descending, with repeats):
+/// exactly the listed tags answer, before and after punctures
+fn run_tag_list_shapes(cx: &mut CaseCx, case: &Value) {
+  let lists: Vec<Vec<u8>> = vec![vec![3, 1, 2], vec![3, 2, 1, 0], vec![0, 1, 1, 2, 3], vec![255, 0, 128], vec![5, 5], vec![200, 100, 150, 50, 250], (0..=255u8).rev().collect(), vec![1, 0, 1], vec![9]];
+  let li = case["list"].as_u64().unwrap() as usize % lists.len();
+  let tags = lists[li].clone();
+  cx.entropy(60 + li as u64);
+  let server = match guard(|| pp::Server::new(tags.clone())) {
+    Ok(Ok(s)) => s,
+    _ => {
+      cx.count("server_refused_tag_list", 1);
+      return;
+    }
+  };
+  let point = pp::Client::blind(b"tag list").0;
+  let mut punct: Vec<u8> = vec![];
+  let steps: Vec<Option<u8>> = vec![None, Some(tags[0]), Some(*tags.last().unwrap()), Some(tags[tags.len() / 2]), Some(77)];
+  let mut s = server.clone();
+  for step in steps {
+    if let Some(t) = step {
+      if !punct.contains(&t) {
+        if guard(|| s.puncture(t).is_ok()) != Ok(true) {
+          cx.viol("C14/puncture-refused", format!("puncturing tag {} (never punctured) failed on a server created with {:?}", t, tags), json!({"tag_list": tags, "tag": t}));
+          return;
+        }
+        punct.push(t);
+      }
+    }
+    for t in 0..=255u8 {
+      if tags.len() > 16 && !(t < 3 || t > 252 || (126..=129).contains(&t)) {
+        continue;
+      }
+      cx.eval();
+      let should = tags.contains(&t) && !punct.contains(&t);
+      match guard(|| s.eval(&point, t, false).is_ok()) {
+        Ok(a) if a == should => cx.count("tag_answers_as_listed", 1),
+        Ok(a) => {
+          cx.viol(if a { "C14/answers-unregistered-tag/tag-list" } else { "C14/refuses-live-tag/tag-list" }, format!("server created with the tag list {:?} (punctured so far: {:?}) {} tag {}", tags, punct, if a { "answers for" } else { "refuses" }, t), json!({"tag_list": tags, "punctured": punct, "tag": t}));
+          return;
+        }
+        Err(p) => cx.viol("C14/eval-panicked", p, json!({"tag_list": tags})),
+      }
+    }
+    cx.count("states", 1);
+    cx.count("transitions", 1);
+  }
+  cx.nontrivial(li as u64);
+  cx.outcome("tag list shapes");
+}
+
 /// replay of one recorded history (also used as the "plain unit test" form of a counterexample)
 fn run_history(cx: &mut CaseCx, case: &Value) {
   let path: Vec<Act> = serde_json::from_value(case["history"].clone()).unwrap();
@@ -704,6 +827,20 @@ pub fn spec() -> PropSpec {
         gen: |_| (0..65u64).map(|i| json!({"src": i})).collect(),
         run: run_object_reuse,
         min_counts: &[("states", 3000)],
+      },
+      Check {
+        name: "puncture-orders",
+        rule: "8 tag families that share low-order bits at several tree levels ({0,64,128,192}, {1,65,129,193}, the eight multiples of 32, {0..3}, {252..255}, {85,170,21,42}, {0,128,1,129}, {63,127,191,255}) on a server with all 256 tags: EVERY ordered sequence of distinct punctures (all of them for 4-tag families, length <= 3 for the 8-tag family): every tag of the family and its x^0x80, x^0x40, x^0x01 neighbours answers iff it was not punctured, with the original value; a second puncture is refused",
+        gen: |_| (0..8u64).map(|f| json!({"family": f})).collect(),
+        run: run_puncture_orders,
+        min_counts: &[("orders_checked", 800)],
+      },
+      Check {
+        name: "tag-list-shapes",
+        rule: "Server::new with 9 tag lists as callers produce them (unsorted, descending, repeats, one tag, the full space reversed): in the initial state and after puncturing the first, last, middle listed tag and an unlisted one, exactly the listed unpunctured tags answer (all 256 tags probed; extremes and middle for the full list)",
+        gen: |_| (0..9u64).map(|l| json!({"list": l})).collect(),
+        run: run_tag_list_shapes,
+        min_counts: &[("tag_answers_as_listed", 5000)],
       },
       Check {
         name: "fixed-histories",
